@@ -74,7 +74,7 @@ def evaluate(fam, case, drv_answer: str, np_rng, n_inputs: int = 5) -> dict:
     rec["fid"] = fam.finding(case)
     rec["oracle"] = None
     if impl.startswith("fire"):
-        feeds = [hst.make_feeds(np_rng) for _ in range(n_inputs)]
+        feeds = [hst.make_feeds(np_rng) for _ in range(getattr(fam, "n_inputs", n_inputs))]
         status, detail = L.oracle(before, after, feeds, exact=fam.exact, prefer=getattr(fam, "prefer", "ort"))
         rec["oracle"] = status
         rec["oracle_detail"] = detail
